@@ -142,3 +142,53 @@ fn nb_determinism() {
     }
     println!("NB-RESULT name=nb_determinism status=ok cases={} key=- detail=4 grammars x all strings<=5 chars over {{a,b,space}} x all sub-ranges: repeated parse, clone, ==, hash, Debug", cases);
 }
+
+// ---- C17: leaf nodes expose the text they consumed ------------------------------------------------------------------
+#[test]
+fn nb_leaf_contents() {
+    let alpha = ["a", "B", "é", "λ", "中", "😀", "\r", "\n", "*", "/"];
+    let mut cases = 0u64;
+    macro_rules! fail { ($s:expr, $($t:tt)*) => {{ println!("NB-RESULT name=nb_leaf_contents status=fail cases={} key=input={:?} detail={}", cases, $s, format!($($t)*)); return; }} }
+    fn parse<'i, G: TypedNode<'i, Rule>>(s: &'i str) -> Option<(usize, G)> {
+        let input = Position::from_start(s);
+        let mut st = Stack::new();
+        let mut tr = Tracker::<Rule>::new(input);
+        G::try_parse_partial_with(input, &mut st, &mut tr).map(|(i, g)| (i.byte_offset(), g))
+    }
+    for s in strings(&alpha, 3) {
+        cases += 1;
+        let first = s.chars().next();
+        // range over several scripts, ANY
+        match (parse::<CharRange<'a', '\u{ffff}'>>(&s), first) {
+            (Some((o, n)), Some(c)) if c >= 'a' && c <= '\u{ffff}' => if n.content != c || o != c.len_utf8() { fail!(s, "CharRange content {:?}, consumed {:?}", n.content, c) },
+            (None, Some(c)) if !(c >= 'a' && c <= '\u{ffff}') => {}
+            (None, None) => {}
+            (r, _) => fail!(s, "CharRange verdict {:?}", r.map(|x| x.0)),
+        }
+        match (parse::<ANY>(&s), first) {
+            (Some((o, n)), Some(c)) => if n.content != c || o != c.len_utf8() { fail!(s, "ANY content {:?}, consumed {:?}", n.content, c) },
+            (None, None) => {}
+            (r, _) => fail!(s, "ANY verdict {:?}", r.map(|x| x.0)),
+        }
+        // insensitive: the actual spelling
+        if let Some((o, n)) = parse::<Insens<'_, LAB>>(&s) { if n.content != &s[..o] || !n.content.eq_ignore_ascii_case("ab") { fail!(s, "Insens content {:?}, consumed {:?}", n.content, &s[..o]) } }
+        // NEWLINE kind
+        if let Some((o, n)) = parse::<NEWLINE>(&s) {
+            let want = if s.starts_with("\r\n") { NewLineType::CRLF } else if s.starts_with('\n') { NewLineType::LF } else { NewLineType::CR };
+            let wlen = if s.starts_with("\r\n") { 2 } else { 1 };
+            if n.content != want || o != wlen { fail!(s, "NEWLINE kind {:?} / {} bytes, expected {:?}", n.content, o, want) }
+        } else if s.starts_with('\r') || s.starts_with('\n') { fail!(s, "NEWLINE rejected") }
+        // skip nodes: span text = text consumed
+        if let Some((o, n)) = parse::<Skip<'_, NStar>>(&s) { if n.span.as_str() != &s[..o] { fail!(s, "Skip span {:?}, consumed {:?}", n.span.as_str(), &s[..o]) } }
+        if let Some((o, n)) = parse::<SkipChar<'_, 2>>(&s) { if n.span.as_str() != &s[..o] || n.span.as_str().chars().count() != 2 { fail!(s, "SkipChar span {:?}", n.span.as_str()) } }
+        // PUSH(ANY) ~ PEEK ~ POP : spans of PEEK / POP are the text they consumed
+        type G<'i> = Seq3<S0<Push<ANY>>, S0<PEEK<'i>>, S0<POP<'i>>>;
+        if let Some((o, n)) = parse::<G<'_>>(&s) {
+            let c = first.unwrap().len_utf8();
+            let (_, pk, pp) = n.get_matched();
+            if pk.span.as_str() != &s[c..2 * c] || pp.span.as_str() != &s[..c] && pp.span.as_str() != &s[2 * c..3 * c] { fail!(s, "PEEK/POP spans {:?} {:?}", pk.span.as_str(), pp.span.as_str()) }
+            if pp.span.as_str() != first.unwrap().to_string() || o != 3 * c { fail!(s, "POP span text {:?}", pp.span.as_str()) }
+        }
+    }
+    println!("NB-RESULT name=nb_leaf_contents status=ok cases={} key=- detail=contents of CharRange / ANY / Insens / NEWLINE / Skip / SkipChar / PEEK / POP on all strings<=3 chars over 10 characters (1-4 bytes, CR, LF)", cases);
+}
